@@ -319,6 +319,16 @@ def check_roman(lo, hi, ctx):
                 ctx.violation('ARABIC:inverse:form%d' % f, {
                     'case': case, 'form': f, 'roman': r[1],
                     'observed': xl.show(a), 'accepted': [repr(float(n))]})
+    # the logical spellings of the form: TRUE = classic (0), FALSE = simplified (4)
+    lg = F['ROMAN'](col, np.array([[True, False]], object))
+    for i, n in enumerate(nums):
+        for j, f in ((0, 0), (1, 4)):
+            ctx.count('cmp.ROMAN.logical-form')
+            if xl.canon(lg[i, j]) != xl.canon(rom[i, f]):
+                ctx.violation('ROMAN:logical-form:%s' % ('TRUE', 'FALSE')[j], {
+                    'case': {'kind': 'roman', 'lo': n, 'hi': n + 1},
+                    'form': bool(1 - j), 'observed': xl.show(xl.canon(lg[i, j])),
+                    'accepted': [xl.show(xl.canon(rom[i, f]))]})
     ctx.case_bulk(len(nums) * 5)
 
 
